@@ -154,8 +154,11 @@ func contractMentions(fc *FuncContract, p string) bool {
 	return false
 }
 
+var kfGlobal *knownFile
+
 func runCheck(o *checkOpts) int {
 	t0 := time.Now()
+	kfGlobal = loadKnownFindings(filepath.Join(o.verif, "known_findings.json"))
 	pats, ok := propPackages[o.prop]
 	if !ok {
 		pats = []string{"."}
@@ -262,6 +265,9 @@ func runCheck(o *checkOpts) int {
 			if rp.obl.Vacuity && to > 4 {
 				to = 4
 			}
+			if kfGlobal != nil && kfGlobal.match(o.prop, rp.Name) != nil && to > 8 && o.tier != "thorough" {
+				to = 8 // a listed known finding is expected to stay undischarged
+			}
 			res := runSolvers(rp.Name, qs, to, o.tier == "thorough" && !rp.obl.Vacuity, nil)
 			rp.res = res
 			rp.Solver = res.Solver
@@ -320,7 +326,7 @@ type evidence struct {
 }
 
 func report(o *checkOpts, P *Program, reps []*oblReport, results []*FuncResult, engineErrs, trusted []string, nfuncs int, loadS float64, t0 time.Time) int {
-	kf := loadKnownFindings(filepath.Join(o.verif, "known_findings.json"))
+	kf := kfGlobal
 	sort.Slice(reps, func(i, j int) bool { return reps[i].Name < reps[j].Name })
 	proved, failed := 0, 0
 	solverS := 0.0
@@ -341,8 +347,8 @@ func report(o *checkOpts, P *Program, reps []*oblReport, results []*FuncResult, 
 		case rp.Status == "error":
 			errObls = append(errObls, rp.Name+": "+rp.res.Output)
 		default:
-			if e := kf.match(o.prop, rp.Name); e != nil {
-				known = append(known, fmt.Sprintf("KNOWN-FINDING: property=%s %s (%s)", o.prop, e.What, rp.Name))
+			if e := kf.match(o.prop, rp.Name); e != nil && e.witnessStillFails(o.repo, P) {
+				known = append(known, fmt.Sprintf("KNOWN-FINDING: property=%s %s (obligation %s; witness %s replayed and still fails)", o.prop, e.What, rp.Name, e.Witness))
 				continue
 			}
 			failed++
